@@ -184,6 +184,11 @@ for r in ["hp", "hpd", "he", "hed", "lfrc"]:
 for t in ["hpd_k1", "hpd_k2", "hed_k1", "hed_k2", "ebr", "lfrc"]:
     _c17_quick.append(run("guards", "reuse_" + t, c=0, opt={"gens": 3, "maxn": 5}, weight=0.3))
     _c17_thorough.append(run("guards", "reuse_" + t, c=0, opt={"gens": 3, "maxn": 9}, weight=1))
+# many guards in pairwise different eras, each on a node born in its guard's era, retired through a copy while the guard holds it (seed C18d: the second
+# growth of the dynamic hazard era pool re-initialised the slots of the first; guards of one era share a slot, so the plain family never grew the pool)
+for t in ["hed_k1", "hed_k2", "hpd_k1", "hpd_k2"]:
+    _c17_quick.append(run("guards", "reuse_" + t, c=0, opt={"gens": 2, "maxn": 9, "eras": 1}, weight=0.3))
+    _c17_thorough.append(run("guards", "reuse_" + t, c=0, opt={"gens": 3, "maxn": 9, "eras": 1}, weight=1))
 for r in RECL_LAZY:
     _c17_quick.append(run("reclaim", "proto_" + r, c=1, opt={"ops": 0x62, "allow_update_only": 1, "gens": 2, "m": 1, "flush": 80}, weight=0.5))
     _c17_thorough.append(run("reclaim", "proto_" + r, c=2, opt={"ops": 0x6a, "allow_update_only": 1, "gens": 2, "m": 1, "flush": 80}, weight=1.5))
@@ -652,11 +657,13 @@ PLAN["C18"] = {
              # re-initialised by the adopting thread - seeds C18c / C17c), released in three orders with a scan after every release
              [run("guards", "reuse_" + t, c=0, opt={"gens": 2, "maxn": 9}, weight=0.3) for t in ["hpd_k1", "hpd_k2", "hed_k1", "hed_k2"]] +
              [run("guards", "reuse_" + t, c=0, opt={"gens": 3}, weight=0.3) for t in ["hp_k3", "he_k3"]] +
+             [run("guards", "reuse_" + t, c=0, opt={"gens": 2, "maxn": 9, "eras": 1}, weight=0.3) for t in ["hed_k1", "hed_k2", "hpd_k1", "hpd_k2"]] +
              # a guard holding a marked null pointer must not occupy a slot (finding F-C18-3)
              [run("guards", t, c=0, opt={"depth": 3, "guards": 2, "nullcell": 1}, weight=0.5) for t in ["slots_hp_k1", "slots_he_k1", "slots_hp_k2", "slots_he_k2"]] +
              [run("guards", "slots_he_k1", c=0, opt={"depth": 4, "guards": 2, "nullcell": 1, "ops": 0x81}, weight=0.3)],
     "thorough": [run("guards", "reuse_" + t, c=0, opt={"gens": 3, "maxn": 9}, weight=2) for t in ["hpd_k1", "hpd_k2", "hed_k1", "hed_k2"]] +
                 [run("guards", "reuse_" + t, c=0, opt={"gens": 4}, weight=1) for t in ["hp_k3", "he_k3"]] +
+                [run("guards", "reuse_" + t, c=0, opt={"gens": 3, "maxn": 9, "eras": 1}, weight=2) for t in ["hed_k1", "hed_k2", "hpd_k1", "hpd_k2"]] +
                 [run("guards", t, c=0, opt={"depth": 4, "guards": 2, "nullcell": 1}, weight=3) for t in ["slots_hp_k1", "slots_he_k1", "slots_hp_k2", "slots_he_k2"]] +
                 [run("guards", "slots_hp_k1", c=0, opt={"depth": 4, "guards": 3}, weight=4), run("guards", "slots_hp_k2", c=0, opt={"depth": 4, "guards": 3}, weight=6),
                  run("guards", "slots_hp_k3", c=0, opt={"depth": 4, "guards": 5, "fill": 2, "ops": 0x31b}, weight=6),
